@@ -123,6 +123,19 @@ def run(fx, tier):
             def need(cond, row, why):
                 v.check(cond, 'R-DOM', '%s:%s' % (inst, row), why, key='C15:R-DOM:%s:%s' % (f.cls, row), where=f.file)
 
+            # ---------------- a rejected request consumes no packet identifier
+            if end[0] == 'complete' and err is not None:
+                allocs = p.calls('allocate_pid')
+                from_alloc = lambda t: contains(t, lambda n: n.get('k') in ('call', 'retof') and callee_name(n) == 'allocate_pid')
+                frees = [fr for fr in p.calls('free_pid') if from_alloc(p.arg(fr, 0))]
+                zero_known = False
+                for c_ in p.conds():
+                    cm_ = p.cmp(c_)
+                    if cm_ and cm_[0] == '==' and from_alloc(cm_[1]) and isinstance(unwrap(cm_[2]), dict) and unwrap(cm_[2]).get('c') == 0:
+                        zero_known = True
+                if allocs and not zero_known:
+                    need(bool(frees), 'identifier-returned', 'a request rejected after an identifier was allocated gives THAT identifier back before completing (%d such free_pid call(s))' % len(frees))
+
             # ---------------- maximum_packet_size
             size_le = [x for x in has(facts, 'cmp', 'maximum_packet_size', '<=') if is_call(x[4], 'size')]
             size_gt = [x for x in has(facts, 'cmp', 'maximum_packet_size', '>') if is_call(x[4], 'size')]
